@@ -33,6 +33,7 @@ def run(ctx):
     c18_4(ctx)
     c18_5(ctx)
     c18_6(ctx)
+    c18_6b(ctx)
 
 
 # ------------------------------------------------------------------ C18.1
@@ -674,6 +675,32 @@ def c18_6(ctx):
         ctx.ob(R, "refuse-before-effect:" + m, not bad, "%s: no explicit refusal is reachable after a state-changing call (%d refusals, %d writers)" % (m, len(refusals), len(writers)),
                found=sorted(set(bad))[:3] or None, where=fs[0].sp)
     ctx.floor(R, "explicit refusals in public mutators", n, 3)
+
+
+def c18_6b(ctx):
+    """batch_insert attaches the pre-built subtree beside an existing leaf, which insert_subtree_at_key refuses (after the
+    batch's blocks are already written) when that leaf is the root.  So the bulk phase may only start once the tree is known
+    to hold two leaves: every path to the first bulk write passes the test of the *leaf count* (`leaf_count() <= 1` selects the
+    one-by-one bootstrap).  The blob's byte length is not a substitute: freed blocks stay allocated after deletes."""
+    from .. import apnf
+    R = "C18.6"
+    fb = ctx.fb
+    fs = [f for p, f in fb.fns.items() if p == BLOB + "::batch_insert" and f.e["kind"] == "AssocFn"]
+    if len(fs) != 1:
+        return ctx.missing(R, "bulk-needs-two-leaves", "batch_insert not found")
+    b = Body(fs[0], fb)
+
+    def leafcount(t, lab):
+        s_ = str(apnf.N(t))
+        return ("leaf_count" in s_ and ".block_status_cache" in s_ and s_.startswith(("('Le', ", "('Lt', ", "('Gt', ", "('Ge', "))
+                and (s_.endswith(", 1)") or s_.endswith(", 2)")))
+    edges = U.edges_where(b, leafcount)
+    bulk = [bi for bi, nm, t in b.calls() if U.flat(nm).endswith("::insert_entry_to_blob") or U.flat(nm).endswith("::insert_subtree_at_key")]
+    U.must_pass(ctx, R, b, "bulk-needs-two-leaves", bulk, edges,
+                "batch_insert reaches its bulk phase only after testing block_status_cache.leaf_count() against 1")
+    boots = [bi for bi, nm, t in b.calls() if U.flat(nm) == BLOB + "::insert"]
+    ok = bool(boots) and bool(edges) and all(any(b.dominates(e, x) for e in edges) for x in boots)
+    ctx.ob(R, "bootstrap-under-leaf-count", ok, "the one-by-one bootstrap inserts run under the leaf-count test", where=fs[0].sp)
 
 
 READ_ONLY_MUT = ("get_mut", "iter_mut", "as_mut")
